@@ -7,7 +7,8 @@ def run(ck):
     if not model: raise RuntimeError(minfo)
     exe = os.path.join(vf.BUILD, "harness", "h_prng"); os.makedirs(os.path.dirname(exe), exist_ok=True)
     rc, out = vf.sh(["g++", "-std=c++11", "-O1", "-w", "-I%s/lib/prng" % vf.REPO, "-I%s/include" % vf.REPO, "-I%s/include/nfl/prng" % vf.REPO,
-                     os.path.join(vf.ROOT, "harness/h_prng.cpp"), os.path.join(vf.REPO, "lib/prng/nfl_crypto_stream_salsa20_amd64_xmm6.s"), "-o", exe])
+                     os.path.join(vf.ROOT, "harness/h_prng.cpp"), os.path.join(vf.REPO, "lib/prng/fastrandombytes.cpp"),
+                     os.path.join(vf.REPO, "lib/prng/nfl_crypto_stream_salsa20_amd64_xmm6.s"), "-o", exe])
     if rc != 0:
         ck.violation("h_prng does not compile", {"compiler_output": out[-3000:]}, tag="build", no_input=True); return ck.finish()
     q = ck.quick(); rng = ck.rng
@@ -24,8 +25,11 @@ def run(ck):
     data = "\n".join(l for _, l in lines) + "\n"
     rc, mout, merr = vf.run_io([model, "prng"], data, timeout=3000)
     if rc != 0: raise RuntimeError("model runner failed: " + merr[-500:])
-    rc, iout, ierr = vf.run_io([exe], data, timeout=600)
-    ml, il = mout.rstrip("\n").split("\n"), iout.rstrip("\n").split("\n")
+    il, rc, ierr = [], 0, ""
+    for _, l in lines:                     # one process per history: the generator's state is static
+        r1, o1, e1 = vf.run_io([exe], l + "\n", timeout=600)
+        il.append(o1.strip()); rc |= r1; ierr += e1
+    ml = mout.rstrip("\n").split("\n")
     fails = []
     if rc != 0 or len(il) != len(lines):
         ck.violation("h_prng crashed: %s" % ierr[-300:], {"stderr": ierr[-2000:]}, tag="crash")
@@ -49,7 +53,7 @@ def run(ck):
     if not fails and not ck.proof["ok"]:
         ck.violation("proof obligation no longer checks: %s" % ck.proof["broken"], {"broken_obligation": ck.proof["broken"]}, tag="obligation", no_input=True)
     ck.assumptions = ["the qhasm assembly nfl_crypto_stream_salsa20_amd64_xmm6.s is compared with, never derived from, the Gallina Salsa20 (specification vectors proved as Examples)",
-                      "fastrandombytes.cpp is textually included in the harness so that its static state can be reset between histories; nfl::randombytes is a fixed-key stub counting calls",
+                      "one process per history (static generator state); nfl::randombytes is a fixed-key stub counting calls",
                       "buffers at rotating alignments inside canary-filled regions; whole region compared"]
     return ck.finish(trusted=["coqc 8.16.1 kernel", "extraction + driver.ml", "h_prng.cpp"], extra_cov={"partial": "assembly compared on %d requests / %d bytes, not proved" % (nreq, ck.cov["bytes"])})
 
